@@ -146,7 +146,8 @@ func c06() {
 			out2, err2, pan2 := again()
 			run.Count("programs_assembled_twice", 1)
 			if pan2 != nil || err2 != nil {
-				run.Violation("second-assemble-fails", fmt.Sprintf("%s: a second Assemble on the same Program fails: err=%v panic=%v", desc, err2, pan2), replay)
+				// refusing to assemble twice would not contradict the property; only a second program that misbehaves does
+				run.Count("second_assemble_refused_not_judged", 1)
 				return
 			}
 			if _, berr2 := vlib.Bisim(ops, out2, false); berr2 != nil {
